@@ -20,8 +20,9 @@ META = {
              'with the oracle evaluated; traces: (object, k set) cases decided; non-trivial: value compared with the explicit pair sum at a k '
              'where 1e-3 < omega/N < 0.999 or the model is k-independent; distinct = digest of (model, parameters, k set, values)'),
     'assumptions': ['NFJC reference: exact Rayleigh-Treloar density + 96-point Gauss-Legendre; tolerance 2.5e-4*N is the accuracy of the shipped fixed-grid Simpson rule (measured error 1.2e-4*N at most, correction itself 0.03-0.06*N)',
-                    'DiscreteKoyama: the sum structure is checked against the class\'s own koyama_kernel_fourier; the kernel is pinned independently only through '
-                    '<r^2> (explicit double sum), w_n(0)=1, |w_n|<=1 and the freely-jointed limit (sigma -> 0, lp = lp_min) where <r^4> is known in closed form'],
+                    'DiscreteKoyama: <r^2>, <r^4> per separation from an independent moment propagation of the bond-angle model (48-point Gauss-Legendre in the bond-angle cosine, '
+                    'uniform torsion average, own bisection for the bending energy); tolerance 5e-6 relative (the shipped linearisation close to lp_min is accurate to 2.2e-7); '
+                    'the sum structure is additionally checked against the class\'s own kernel to 1e-11'],
 }
 
 EPS = np.finfo(float).eps
